@@ -55,13 +55,33 @@ Fixpoint sorted_from (t0 : Z) (s : segs) : bool :=
   end.
 Definition sorted (s : segs) : bool := match s with [] => true | (t, _) :: _ => sorted_from t s end.
 
-(* the running maximum of the segment times: what the handler's clock makes of a schedule *)
+(* what the handler's clock makes of a schedule: every segment is stamped with the running
+   maximum of the arrival times so far (the clock starts at 0); segments without bytes carry no
+   information and are dropped.  [mono s] is sorted; it is [s] itself when [s] is sorted, starts at
+   a time >= 0 and has no empty segment. *)
 Fixpoint mono_from (t0 : Z) (s : segs) : segs :=
   match s with
   | [] => []
+  | (t, Some []) :: r => mono_from t0 r
   | (t, x) :: r => (Z.max t t0, x) :: mono_from (Z.max t t0) r
   end.
-Definition mono (s : segs) : segs := match s with [] => [] | (t, _) :: _ => mono_from t s end.
+Definition mono (s : segs) : segs := mono_from 0 s.
+
+(* the same on timed byte streams *)
+Fixpoint bclamp (B : Z) (l : bstream) : bstream :=
+  match l with
+  | [] => []
+  | (t, b) :: r => (Z.max t B, b) :: bclamp (Z.max t B) r
+  end.
+Fixpoint blast (B : Z) (l : bstream) : Z :=
+  match l with
+  | [] => B
+  | (t, _) :: r => blast (Z.max t B) r
+  end.
+Definition clamp_st (B : Z) (s : st2) : st2 :=
+  {| b_now := b_now s; b_dl := b_dl s; b_ka := b_ka s; b_in := bclamp B (b_in s);
+     b_eof := option_map (fun te => Z.max te (blast B (b_in s))) (b_eof s);
+     b_nka := b_nka s; b_nnow := b_nnow s; b_rd := b_rd s |}.
 
 (* the TRecv events of a trace, in order *)
 Fixpoint recvs (tr : trace) : list (Z * bytes) :=
@@ -201,3 +221,24 @@ Example stops_in_frame_differs :
   /\ last (run1 w_o w_cfg w_e (frames_of (cf_max_len w_cfg) stops_in_frame)) (0, TTick) = (3, TEnd OHang)
   /\ unhang (run2 w_o w_cfg w_e stops_in_frame) = unhang (run1 w_o w_cfg w_e (frames_of (cf_max_len w_cfg) stops_in_frame)).
 Proof. vm_compute. repeat split; reflexivity. Qed.
+
+(* ---- no condition on the times: [mono] ---- *)
+
+(* on the schedule with decreasing times inside a frame the byte-level run is the frame-level run
+   of the monotone version (frame stamped 30); the monotone version of a sorted schedule that
+   starts at a time >= 0 is the schedule itself *)
+Example mono_unsorted_in_frame :
+  mono unsorted_in_frame = firstn 4 w_login ++ [(30, Some [1]); (30, Some [3])]
+  /\ run2 w_o w_cfg w_e unsorted_in_frame = run1 w_o w_cfg w_e (frames_of (cf_max_len w_cfg) (mono unsorted_in_frame))
+  /\ mono k1_split = k1_split /\ mono glued_unsorted <> glued_unsorted.
+Proof.
+  split; [vm_compute; reflexivity|]. split; [vm_compute; reflexivity|]. split; [vm_compute; reflexivity|].
+  vm_compute. intros H. discriminate H.
+Qed.
+
+(* a segment without bytes stamped in the future of the following ones is invisible to the handler *)
+Definition empty_ahead : segs := firstn 4 w_login ++ [(500, Some []); (20, Some (pframe login_sb_LoginAcknowledgedPacket [])); (1001, Some w_info); (1203, Some w_echo)].
+Example empty_ahead_ok :
+  run2 w_o w_cfg w_e empty_ahead = run1 w_o w_cfg w_e (frames_of (cf_max_len w_cfg) (mono empty_ahead))
+  /\ run2 w_o w_cfg w_e empty_ahead = run2 w_o w_cfg w_e k1_whole.
+Proof. vm_compute. split; reflexivity. Qed.
